@@ -117,18 +117,32 @@ Section E2E.
   Proof. induction k as [|v r IH]; cbn; [reflexivity|]. now rewrite veqb_refl, IH. Qed.
 
   (* a value a column of metadata kind k can hold and that can come back *)
-  Definition wf (k : kind) (v : value) : Prop :=
+  Definition wf_base (k : kind) (v : value) : Prop :=        (* plain (not categorical) columns *)
     match k, v with
     | KInt sg bits, VInt z => in_range sg bits z = true
     | KBool, VBool _ | KStr, VStr _ | KFloat _, VFloat _ | KTime _, VTime _ | KTimeTz, VTime _ => True
-    | KCat, VCat (VStr _) => True
     | _, _ => False
     end.
+  (* categorical columns: text labels when the label type was not recorded (files of older writers), labels of
+     the recorded plain type otherwise *)
+  Definition wf (k : kind) (v : value) : Prop :=
+    match k with
+    | KCat None => match v with VCat (VStr _) => True | _ => False end
+    | KCat (Some lk) => match v with VCat l => wf_base lk l | _ => False end
+    | _ => wf_base k v
+    end.
+
+  Lemma wf_base_of_kind k v : wf_base k v -> of_kind_base F T D k v /\ unwrap v = v.
+  Proof. destruct k, v; cbn; tauto. Qed.
 
   Lemma wf_of_kind k v : wf k v -> of_kind k (unwrap v).
-  Proof. destruct k, v; cbn; try tauto. Qed.
+  Proof.
+    destruct k as [| | | | | |[lk|]]; try (intros H; destruct (wf_base_of_kind _ _ H) as [H1 H2]; rewrite H2; exact H1).
+    - destruct v as [| | | | | |l]; cbn; try tauto. intros H. apply (wf_base_of_kind lk l H).
+    - destruct v as [| | | | | |l]; cbn; try tauto.
+  Qed.
 
-  Lemma veqb_wf_eq k a b : wf k a -> wf k b -> veqb a b = true -> a = b.
+  Lemma veqb_wf_base_eq k a b : wf_base k a -> wf_base k b -> veqb a b = true -> a = b.
   Proof.
     destruct k, a, b; cbn; try tauto; intros Ha Hb H.
     - apply Z.eqb_eq in H. now subst.
@@ -137,7 +151,15 @@ Section E2E.
     - destruct (feqb_spec f f0); [now subst|discriminate].
     - destruct (teqb_spec t t0); [now subst|discriminate].
     - destruct (teqb_spec t t0); [now subst|discriminate].
-    - destruct a, b; try tauto. cbn in H. destruct (str_eqb_spec s s0); [now subst|discriminate].
+  Qed.
+
+  Lemma veqb_wf_eq k a b : wf k a -> wf k b -> veqb a b = true -> a = b.
+  Proof.
+    destruct k as [| | | | | |[lk|]]; try apply veqb_wf_base_eq.
+    - destruct a as [| | | | | |la], b as [| | | | | |lb]; cbn; try tauto. intros Ha Hb H.
+      f_equal. now apply (veqb_wf_base_eq lk).
+    - destruct a as [| | | | | |la], b as [| | | | | |lb]; cbn; try tauto.
+      destruct la, lb; try tauto. intros _ _ H. cbn in H. destruct (str_eqb_spec s s0); [now subst|discriminate].
   Qed.
 
   (* ---------------------------------------------------------------- the OrderedDict of sets *)
@@ -915,7 +937,25 @@ Section E2E.
     Definition Pv_hive (n : str) (v : value) : Prop :=
       exists k, alist_get n pm = Some k /\ wf k v /\ legal (show true v) /\
                 parse_with_meta k (show true v) = Ok (unwrap v).
-    Definition text_hive (n : str) : Prop := alist_get n pm = Some KStr \/ alist_get n pm = Some KCat.
+    Definition text_kind (k : kind) : Prop :=
+      match k with KStr | KCat None | KCat (Some KStr) => True | _ => False end.
+    Definition text_hive (n : str) : Prop := exists k, alist_get n pm = Some k /\ text_kind k.
+
+    Lemma hive_Hb1 n v : Pv_hive n v -> is_vstr (unwrap v) = true -> text_hive n.
+    Proof.
+      intros [k [Ek [Hwf _]]] Hs. exists k. split; [exact Ek|].
+      destruct k as [| | | | | |[lk|]]; destruct v as [| | | | | |l]; cbn in *; try tauto; try discriminate.
+      destruct lk, l; cbn in *; try tauto; discriminate.
+    Qed.
+
+    Lemma hive_Hb2 n v : text_hive n -> Pv_hive n v -> val_to_num (Some KStr) (show true v) = Ok (unwrap v).
+    Proof.
+      intros [k' [Ek' Ht]] [k [Ek [Hwf _]]]. rewrite Ek in Ek'. injection Ek' as <-.
+      destruct k as [| | | | | |[lk|]]; cbn in Ht; try tauto.
+      - destruct v; cbn in Hwf; try tauto; try reflexivity.
+      - destruct lk; try tauto. destruct v as [| | | | | |l]; cbn in Hwf; try tauto. destruct l; try tauto; try reflexivity.
+      - destruct v as [| | | | | |l]; cbn in Hwf; try tauto. destruct l; try tauto; try reflexivity.
+    Qed.
 
     Lemma hive_nx key : key_ok names Pv_hive key ->
       Forall nx_legal (combine names (map (show true) key)) /\
@@ -959,11 +999,8 @@ Section E2E.
     Proof.
       apply (read_generic true pm names pname names names_nodup Pv_hive unwrap text_hive).
       - intros n v [k [Ek [_ [_ Hrt]]]]. rewrite Ek. exact Hrt.
-      - intros n v [k [Ek [Hwf _]]] Hs. unfold text_hive. rewrite Ek.
-        destruct k, v; cbn in Hwf, Hs; try tauto; try discriminate; auto.
-      - intros n v Ht [k [Ek [Hwf _]]]. unfold text_hive in Ht. rewrite Ek in Ht.
-        destruct Ht as [[= ->]|[= ->]]; destruct v as [| | | | | |l]; cbn in Hwf; try tauto; try reflexivity.
-        destruct l; try tauto; reflexivity.
+      - exact hive_Hb1.
+      - exact hive_Hb2.
       - intros n v v' [k [Ek [Hwf _]]] [k' [Ek' [Hwf' _]]] H. rewrite Ek in Ek'. injection Ek' as <-.
         apply (veqb_of_kind_eq F T D feqb teqb deqb f_eq_Z show_float parse_float show_time_iso show_time_str parse_time_np parse_time_fmt parse_time_pd parse_delta feqb_spec teqb_spec k); [now apply wf_of_kind|now apply wf_of_kind|exact H].
       - intros key Hk. destruct (hive_paths key O Hk) as [_ [_ [H3 _]]].
@@ -993,11 +1030,8 @@ Section E2E.
     Proof.
       apply (e2e true pm names part_name names names_nodup Pv_hive unwrap text_hive).
       - intros n v [k [Ek [_ [_ Hrt]]]]. rewrite Ek. exact Hrt.
-      - intros n v [k [Ek [Hwf _]]] Hs. unfold text_hive. rewrite Ek.
-        destruct k, v; cbn in Hwf, Hs; try tauto; try discriminate; auto.
-      - intros n v Ht [k [Ek [Hwf _]]]. unfold text_hive in Ht. rewrite Ek in Ht.
-        destruct Ht as [[= ->]|[= ->]]; destruct v as [| | | | | |l]; cbn in Hwf; try tauto; try reflexivity.
-        destruct l; try tauto; reflexivity.
+      - exact hive_Hb1.
+      - exact hive_Hb2.
       - intros n v v' [k [Ek [Hwf _]]] [k' [Ek' [Hwf' _]]] H. rewrite Ek in Ek'. injection Ek' as <-.
         apply (veqb_of_kind_eq F T D feqb teqb deqb f_eq_Z show_float parse_float show_time_iso show_time_str parse_time_np parse_time_fmt parse_time_pd parse_delta feqb_spec teqb_spec k); [now apply wf_of_kind|now apply wf_of_kind|exact H].
       - intros key Hk. destruct (hive_paths part_name part_name_clean key O Hk) as [_ [_ [H3 _]]].
@@ -1053,7 +1087,7 @@ Section E2E.
     cbn. f_equal. apply IH. now injection Hl.
   Qed.
 
-  Inductive lclass := LText | LInt | LBool.
+  Inductive lclass := LText | LInt | LBool | LFloat | LTime.
 
   Section Drill.
     Variable pm : list (str * kind).
@@ -1075,6 +1109,10 @@ Section E2E.
       | LText => exists s, v = VStr s /\ parse_guess s = VStr s
       | LInt => exists z, v = VInt z
       | LBool => exists b, v = VBool b
+      (* floats and timestamps: the guesses of _val_to_num give the value back (int() fails, float() / pd.Timestamp()
+         invert str()): a hypothesis about the external conversions, per value *)
+      | LFloat => exists f, v = VFloat f /\ parse_guess (show_float f) = VFloat f
+      | LTime => exists t, v = VTime t /\ parse_guess (show_time_str t) = VTime t
       end.
 
     Lemma rv_drill_cases n v : Pv_drill n v ->
@@ -1082,6 +1120,8 @@ Section E2E.
       | LText => exists s, v = VStr s /\ rv_drill v = VStr s
       | LInt => exists z, v = VInt z /\ rv_drill v = VInt z
       | LBool => exists b, v = VBool b /\ rv_drill v = VBool b
+      | LFloat => exists f, v = VFloat f /\ rv_drill v = VFloat f
+      | LTime => exists t, v = VTime t /\ rv_drill v = VTime t
       end.
     Proof.
       intros [_ [_ H]]. unfold rv_drill. destruct (lk n).
@@ -1089,6 +1129,8 @@ Section E2E.
       - destruct H as [z ->]. exists z. split; [reflexivity|]. cbn [Partition.show].
         apply (guess_int F T D parse_float parse_time_pd parse_delta).
       - destruct H as [b ->]. exists b. split; [reflexivity|]. destruct b; reflexivity.
+      - destruct H as [f [-> Hf]]. exists f. split; [reflexivity|exact Hf].
+      - destruct H as [t [-> Ht]]. exists t. split; [reflexivity|exact Ht].
     Qed.
 
     Lemma dnames_nodup : NoDup dnames.
@@ -1138,9 +1180,8 @@ Section E2E.
     Proof.
       apply (e2e false [] names part_name dnames dnames_nodup Pv_drill rv_drill (fun n => lk n = LText)).
       - intros n v _. reflexivity.
-      - intros n v Hv Hs. pose proof (rv_drill_cases n v Hv) as Hc. destruct (lk n); [reflexivity| |].
-        + destruct Hc as [z [_ E]]. rewrite E in Hs. discriminate.
-        + destruct Hc as [b [_ E]]. rewrite E in Hs. discriminate.
+      - intros n v Hv Hs. pose proof (rv_drill_cases n v Hv) as Hc. destruct (lk n); [reflexivity| | | |];
+          destruct Hc as [z [_ E]]; rewrite E in Hs; discriminate.
       - intros n v Ht Hv. pose proof (rv_drill_cases n v Hv) as Hc. rewrite Ht in Hc.
         destruct Hc as [s [-> E]]. rewrite E. reflexivity.
       - intros n v v' Hv Hv' H. pose proof (rv_drill_cases n v Hv) as Hc. pose proof (rv_drill_cases n v' Hv') as Hc'.
@@ -1149,6 +1190,8 @@ Section E2E.
           destruct (str_eqb_spec s s'); [now subst|discriminate].
         + destruct Hc as [z [_ E]], Hc' as [z' [_ E']]. rewrite E, E' in *. cbn in H. apply Z.eqb_eq in H. now subst.
         + destruct Hc as [b [_ E]], Hc' as [b' [_ E']]. rewrite E, E' in *. cbn in H. apply Bool.eqb_prop in H. now subst.
+        + destruct Hc as [f [_ E]], Hc' as [f' [_ E']]. rewrite E, E' in *. cbn in H. destruct (feqb_spec f f'); [now subst|discriminate].
+        + destruct Hc as [t [_ E]], Hc' as [t' [_ E']]. rewrite E, E' in *. cbn in H. destruct (teqb_spec t t'); [now subst|discriminate].
       - intros key Hk. destruct (drill_paths key O Hk) as [_ [H2 [_ [_ [_ [_ [_ H8]]]]]]].
         unfold Partition.path_hits. cbn [snd]. rewrite H2, H8. reflexivity.
       - intros key Hk. destruct (drill_paths key O Hk) as [H1 [H2 [_ [_ [_ [H6 _]]]]]]. split; [exact H1|]. now rewrite H2.
@@ -1163,6 +1206,8 @@ Section E2E.
         + destruct Hc as [s [-> _]], Hc' as [s' [-> _]]. cbn in H. destruct (str_eqb_spec s s'); [now subst|discriminate].
         + destruct Hc as [z [-> _]], Hc' as [z' [-> _]]. cbn in H. apply Z.eqb_eq in H. now subst.
         + destruct Hc as [b0 [-> _]], Hc' as [b' [-> _]]. cbn in H. apply Bool.eqb_prop in H. now subst.
+        + destruct Hc as [f [-> _]], Hc' as [f' [-> _]]. cbn in H. destruct (feqb_spec f f'); [now subst|discriminate].
+        + destruct Hc as [t [-> _]], Hc' as [t' [-> _]]. cbn in H. destruct (teqb_spec t t'); [now subst|discriminate].
       - reflexivity.
     Qed.
 
@@ -1177,6 +1222,8 @@ Section E2E.
       + destruct Hc as [s [-> _]], Hc' as [s' [-> _]]. cbn in H. destruct (str_eqb_spec s s'); [now subst|discriminate].
       + destruct Hc as [z [-> _]], Hc' as [z' [-> _]]. cbn in H. apply Z.eqb_eq in H. now subst.
       + destruct Hc as [b0 [-> _]], Hc' as [b' [-> _]]. cbn in H. apply Bool.eqb_prop in H. now subst.
+      + destruct Hc as [f [-> _]], Hc' as [f' [-> _]]. cbn in H. destruct (feqb_spec f f'); [now subst|discriminate].
+      + destruct Hc as [t [-> _]], Hc' as [t' [-> _]]. cbn in H. destruct (teqb_spec t t'); [now subst|discriminate].
     Qed.
   End Drill.
 End E2E.
